@@ -79,6 +79,9 @@ fixed("C06", "text json Source.Content * * *", "1020738", "a source's decoded co
 known("C02", "json-out * dup-member *Map.* chars=*", "a natural-language list holding two values under one language tag (possible through Append/Add, and what the binary codec round-trips) is written as a language map that repeats the tag as member name: {\"nameMap\":{\"en\":\"a\",\"en\":\"b\"}}. "
       "Not repaired: JSON language maps hold one value per tag; whether to write an array per tag (the decoder would have to learn it) or to keep the first value only is a design decision for the maintainers.",
       "hostile layer: method Name.map-repeated-tag")
+known("C02", "json-out LangRefValue invalid-json chars=*", "LangRefValue.MarshalJSON of a tagged value returns the fragment \"en\":\"text\" (a member of a language map), which is not a JSON value by itself (json.Marshal of a LangRefValue fails). "
+      "Not repaired: TestLangRefValue_MarshalJSON pins exactly this output, and NaturalLanguageValues.MarshalJSON composes maps out of these fragments.",
+      "hostile layer: method LangRefValue-tagged")
 # ---- C20
 fixed("C20", "nil Flatten * list panic@*", "972bf1d", "recipient de-duplication only skipped the untyped nil: a nil pointer in an addressee list made Recipients/Flatten/FlattenProperties panic", "cells: Flatten (*Actor)(nil) list")
 fixed("C20", "nil GobEncode * * panic@*", "8caaaf9", "GobEncode of nil, of a nil pointer, or of a value holding one panicked in GetType", "cells: GobEncode (*Object)(nil) top")
